@@ -180,6 +180,16 @@ func cloneValue(v interface{}) interface{} {
 	return v
 }
 
+// isComposite returns true for list and object values, the ones coercion
+// works on in place.
+func isComposite(v interface{}) bool {
+	switch v.(type) {
+	case map[string]interface{}, []interface{}:
+		return true
+	}
+	return false
+}
+
 func inErr(err error, k string) error {
 	var gerr *Error
 	if errors.As(err, &gerr) {
